@@ -131,7 +131,196 @@ theorem scanUnquoted_tail (dia : Dialect) (ctx : Str) (hctx : ctx = [] ∨ ∃ d
     | open_ => simp only [hcond, Bool.false_eq_true, if_false]; exact hfin
     | close => simp only [hcond, Bool.false_eq_true, if_false]; exact hfin
 
-/-- the five letters of a keyword, in any case -/
-def kwPrefixOk (w : Str) (target : Str) : Bool := w.length == 5 && w.map lowerAscii == target
+/-- an ASCII letter or underscore (given by its lower-case form) as the scanner sees it -/
+theorem letter_facts (dia : Dialect) (c n : Nat) (hn : 95 ≤ n ∧ n ≤ 122) (h : lowerAscii c = n) :
+    allowedBmp dia c = true ∧ c < 160 := by
+  simp only [lowerAscii] at h
+  split at h
+  · have : 32 ≤ c ∧ c ≤ 126 := by omega_cu
+    exact ⟨by simp [allowedBmp, this.1, this.2], by omega⟩
+  · have : 32 ≤ c ∧ c ≤ 126 := by omega_cu
+    exact ⟨by simp [allowedBmp, this.1, this.2], by omega⟩
+
+/-- one step of scan_unquoted over an allowed BMP character of a GENERAL metaclass -/
+theorem scanUnquoted_general_step (dia : Dialect) (c : Nat) (r acc : Str) (line col k : Nat) (kd ks : Bool) (pol : Policy)
+    (log : List Report) (ha : allowedBmp dia c = true) (hm : metaOfCls (classOf dia c) = .general) :
+    scanUnquoted dia (c :: r) line col false acc k kd ks pol log
+      = scanUnquoted dia r line (col + 1) false (c :: acc) (k + 1)
+          (if k < 5 then kd && (classOf dia c == dataCls k) else kd)
+          (if k < 5 then ks && (classOf dia c == saveCls k) else ks) pol log := by
+  simp only [scanUnquoted, bind_eq, pure_eq]
+  rw [L.bind_ok (scanUChar_bmp dia c ha line col _ pol log)]
+  simp only [fixAcc_false, hm]
+
+theorem general_of_letter {dia : Dialect} {c : Nat} {k : Cls} (h : classOf dia c = k)
+    (hk : k = .d ∨ k = .a ∨ k = .t ∨ k = .s ∨ k = .v ∨ k = .e ∨ k = .l ∨ k = .o ∨ k = .p ∨ k = .undersc) :
+    metaOfCls (classOf dia c) = .general := by
+  rw [h]; rcases hk with h | h | h | h | h | h | h | h | h | h <;> subst h <;> rfl
+
+/-- `data_` / `save_` followed by a code: the five letters, then anything non-blank (brackets included) -/
+theorem scanUnquoted_kw (dia : Dialect) (isData : Bool) (a b c d e : Nat) (code ctx : Str)
+    (hw : if isData then (lowerAscii a = 100 ∧ lowerAscii b = 97 ∧ lowerAscii c = 116 ∧ lowerAscii d = 97 ∧ lowerAscii e = 95)
+          else (lowerAscii a = 115 ∧ lowerAscii b = 97 ∧ lowerAscii c = 118 ∧ lowerAscii d = 101 ∧ lowerAscii e = 95))
+    (hcode : nonBlankOk dia code = true) (hctx : ctx = [] ∨ ∃ x r, ctx = x :: r ∧ isWs x = true)
+    (line col : Nat) (pol : Policy) (log : List Report) :
+    scanUnquoted dia (a :: b :: c :: d :: e :: (code ++ ctx)) line col false [] 0 true true pol log
+      = .ok ⟨(a :: b :: c :: d :: e :: code).reverse, ⟨ctx, line, col + 5 + colAdd code⟩⟩ log := by
+  simp only [nonBlankOk, Bool.and_eq_true] at hcode
+  have fa := LF.all dia a; have fb := LF.all dia b; have fc := LF.all dia c; have fd := LF.all dia d
+  have fe := LF.all dia e
+  cases isData with
+  | true =>
+    simp only [if_true] at hw
+    obtain ⟨h1, h2, h3, h4, h5⟩ := hw
+    have ca := fa.d.mpr h1; have cb := fb.a.mpr h2; have cc := fc.t.mpr h3; have cd := fd.a.mpr h4; have ce := fe.u.mpr h5
+    rw [scanUnquoted_general_step dia a _ _ _ _ _ _ _ _ _ (letter_facts dia a 100 (by omega) h1).1 (general_of_letter ca (by simp)),
+      scanUnquoted_general_step dia b _ _ _ _ _ _ _ _ _ (letter_facts dia b 97 (by omega) h2).1 (general_of_letter cb (by simp)),
+      scanUnquoted_general_step dia c _ _ _ _ _ _ _ _ _ (letter_facts dia c 116 (by omega) h3).1 (general_of_letter cc (by simp)),
+      scanUnquoted_general_step dia d _ _ _ _ _ _ _ _ _ (letter_facts dia d 97 (by omega) h4).1 (general_of_letter cd (by simp)),
+      scanUnquoted_general_step dia e _ _ _ _ _ _ _ _ _ (letter_facts dia e 95 (by omega) h5).1 (general_of_letter ce (by simp))]
+    simp only [ca, cb, cc, cd, ce, dataCls, saveCls]
+    have := scanUnquoted_tail dia ctx hctx line pol log code none [e, d, c, b, a] (col + 1 + 1 + 1 + 1 + 1) 5
+      (true && (Cls.d == Cls.d) && (Cls.a == Cls.a) && (Cls.t == Cls.t) && (Cls.a == Cls.a) && (Cls.undersc == Cls.undersc))
+      (true && (Cls.d == Cls.s) && (Cls.a == Cls.a) && (Cls.t == Cls.v) && (Cls.a == Cls.e) && (Cls.undersc == Cls.undersc))
+      hcode.1 trivial hcode.2 (by omega) (by decide)
+    simp only [Option.isSome_none] at this
+    simp only [show (0 : Nat) < 5 from by decide, show (0 + 1 : Nat) < 5 from by decide, show (0 + 1 + 1 : Nat) < 5 from by decide,
+      show (0 + 1 + 1 + 1 : Nat) < 5 from by decide, show (0 + 1 + 1 + 1 + 1 : Nat) < 5 from by decide, if_true]
+    rw [this]
+    simp [Nat.add_assoc]
+  | false =>
+    simp only [Bool.false_eq_true, if_false] at hw
+    obtain ⟨h1, h2, h3, h4, h5⟩ := hw
+    have ca := fa.s.mpr h1; have cb := fb.a.mpr h2; have cc := fc.v.mpr h3; have cd := fd.e.mpr h4; have ce := fe.u.mpr h5
+    rw [scanUnquoted_general_step dia a _ _ _ _ _ _ _ _ _ (letter_facts dia a 115 (by omega) h1).1 (general_of_letter ca (by simp)),
+      scanUnquoted_general_step dia b _ _ _ _ _ _ _ _ _ (letter_facts dia b 97 (by omega) h2).1 (general_of_letter cb (by simp)),
+      scanUnquoted_general_step dia c _ _ _ _ _ _ _ _ _ (letter_facts dia c 118 (by omega) h3).1 (general_of_letter cc (by simp)),
+      scanUnquoted_general_step dia d _ _ _ _ _ _ _ _ _ (letter_facts dia d 101 (by omega) h4).1 (general_of_letter cd (by simp)),
+      scanUnquoted_general_step dia e _ _ _ _ _ _ _ _ _ (letter_facts dia e 95 (by omega) h5).1 (general_of_letter ce (by simp))]
+    simp only [ca, cb, cc, cd, ce, dataCls, saveCls]
+    have := scanUnquoted_tail dia ctx hctx line pol log code none [e, d, c, b, a] (col + 1 + 1 + 1 + 1 + 1) 5
+      (true && (Cls.s == Cls.d) && (Cls.a == Cls.a) && (Cls.v == Cls.t) && (Cls.e == Cls.a) && (Cls.undersc == Cls.undersc))
+      (true && (Cls.s == Cls.s) && (Cls.a == Cls.a) && (Cls.v == Cls.v) && (Cls.e == Cls.e) && (Cls.undersc == Cls.undersc))
+      hcode.1 trivial hcode.2 (by omega) (by decide)
+    simp only [Option.isSome_none] at this
+    simp only [show (0 : Nat) < 5 from by decide, show (0 + 1 : Nat) < 5 from by decide, show (0 + 1 + 1 : Nat) < 5 from by decide,
+      show (0 + 1 + 1 + 1 : Nat) < 5 from by decide, show (0 + 1 + 1 + 1 + 1 : Nat) < 5 from by decide, if_true]
+    rw [this]
+    simp [Nat.add_assoc]
+
+
+theorem classify_data (dia : Dialect) (a b c d e : Nat) (code : Str)
+    (h : lowerAscii a = 100 ∧ lowerAscii b = 97 ∧ lowerAscii c = 116 ∧ lowerAscii d = 97 ∧ lowerAscii e = 95) :
+    classify dia (a :: b :: c :: d :: e :: code) = (if code = [] then .reserved else .blockHead) := by
+  have fa := LF.all dia a; have fb := LF.all dia b; have fc := LF.all dia c; have fd := LF.all dia d
+  have fe := LF.all dia e
+  obtain ⟨h1, h2, h3, h4, h5⟩ := h
+  simp only [classify, List.length_cons, List.getD_cons_zero, List.getD_cons_succ, fa.d.mpr h1, fb.a.mpr h2, fc.t.mpr h3,
+    fd.a.mpr h4, fe.u.mpr h5]
+  cases code with
+  | nil => simp
+  | cons x r => simp
+
+theorem classify_save (dia : Dialect) (a b c d e : Nat) (code : Str)
+    (h : lowerAscii a = 115 ∧ lowerAscii b = 97 ∧ lowerAscii c = 118 ∧ lowerAscii d = 101 ∧ lowerAscii e = 95) :
+    classify dia (a :: b :: c :: d :: e :: code) = (if code = [] then .frameTerm else .frameHead) := by
+  have fa := LF.all dia a; have fb := LF.all dia b; have fc := LF.all dia c; have fd := LF.all dia d
+  have fe := LF.all dia e
+  obtain ⟨h1, h2, h3, h4, h5⟩ := h
+  have ca := fa.s.mpr h1; have cb := fb.a.mpr h2; have cc := fc.v.mpr h3; have cd := fd.e.mpr h4; have ce := fe.u.mpr h5
+  simp only [classify, List.length_cons, List.getD_cons_zero, List.getD_cons_succ, ca, cb, cc, cd, ce]
+  cases code with
+  | nil => simp
+  | cons x r => simp
+
+theorem classify_loop (dia : Dialect) (a b c d e : Nat)
+    (h : lowerAscii a = 108 ∧ lowerAscii b = 111 ∧ lowerAscii c = 111 ∧ lowerAscii d = 112 ∧ lowerAscii e = 95) :
+    classify dia [a, b, c, d, e] = .loopKw := by
+  have fa := LF.all dia a; have fb := LF.all dia b; have fc := LF.all dia c; have fd := LF.all dia d
+  have fe := LF.all dia e
+  obtain ⟨h1, h2, h3, h4, h5⟩ := h
+  have ca := fa.l.mpr h1; have cb := fb.o.mpr h2; have cc := fc.o.mpr h3; have cd := fd.p.mpr h4; have ce := fe.u.mpr h5
+  simp [classify, ca, cb, cc, cd, ce]
+
+/-- next_token's dispatch for a token that starts with a letter of class D, S or L: scan_unquoted from that unit -/
+theorem stepTok_letter (dia : Dialect) (a : Nat) (r : Str) (line col : Nat)
+    (hk : classOf dia a = .d ∨ classOf dia a = .s ∨ classOf dia a = .l) :
+    stepTok dia true a r line col
+      = L.bind (scanUnquoted dia (a :: r) line col false [] 0 true true)
+          (fun s => finishUnquoted dia true s.acc.reverse s.pos) := by
+  unfold stepTok
+  simp only [bind_eq]
+  simp only [pure_eq]
+  have hm : metaOfCls (classOf dia a) = .general := by rcases hk with h | h | h <;> rw [h] <;> rfl
+  have : (metaOfCls (classOf dia a) != Meta.close && metaOfCls (classOf dia a) != Meta.ws && !true) = false := by simp
+  rw [this, reportIf_false, L.pure_bind]
+  have hne : ∀ k : Cls, k ≠ .d → k ≠ .s → k ≠ .l → ¬ classOf dia a = k := by
+    intro k h1 h2 h3 e
+    rcases hk with h | h | h <;> rw [h] at e
+    · exact h1 e.symm
+    · exact h2 e.symm
+    · exact h3 e.symm
+  rw [if_neg (hne .eol (by decide) (by decide) (by decide)), if_neg (hne .ws (by decide) (by decide) (by decide)),
+    if_neg (hne .hash (by decide) (by decide) (by decide)), if_neg (hne .undersc (by decide) (by decide) (by decide)),
+    if_neg (hne .obrak (by decide) (by decide) (by decide)), if_neg (hne .cbrak (by decide) (by decide) (by decide)),
+    if_neg (hne .ocurl (by decide) (by decide) (by decide)), if_neg (hne .ccurl (by decide) (by decide) (by decide)),
+    if_neg (hne .quote (by decide) (by decide) (by decide)), if_neg (hne .semi (by decide) (by decide) (by decide)),
+    Nat.add_sub_cancel]
+
+/-- `data_<code>` (block header) and `save_<code>` (frame header), `save_` (frame terminator) -/
+theorem stepTok_kw (dia : Dialect) (isData : Bool) (a b c d e : Nat) (code ctx : Str)
+    (hw : if isData then (lowerAscii a = 100 ∧ lowerAscii b = 97 ∧ lowerAscii c = 116 ∧ lowerAscii d = 97 ∧ lowerAscii e = 95)
+          else (lowerAscii a = 115 ∧ lowerAscii b = 97 ∧ lowerAscii c = 118 ∧ lowerAscii d = 101 ∧ lowerAscii e = 95))
+    (hcode : nonBlankOk dia code = true) (hne : isData = true → code ≠ [])
+    (hctx : ctx = [] ∨ ∃ x r, ctx = x :: r ∧ isWs x = true)
+    (line col : Nat) (pol : Policy) (log : List Report) :
+    stepTok dia true a (b :: c :: d :: e :: (code ++ ctx)) line col pol log
+      = .ok (.tok ⟨if isData then .blockHead else (if code = [] then .frameTerm else .frameHead), code, line, col + 5 + colAdd code⟩
+              ⟨ctx, line, col + 5 + colAdd code⟩) log := by
+  have hscan := scanUnquoted_kw dia isData a b c d e code ctx hw hcode hctx line col pol log
+  have hk : classOf dia a = .d ∨ classOf dia a = .s ∨ classOf dia a = .l := by
+    cases isData with
+    | true => simp only [if_true] at hw; exact Or.inl ((LF.all dia a).d.mpr hw.1)
+    | false => simp only [Bool.false_eq_true, if_false] at hw; exact Or.inr (Or.inl ((LF.all dia a).s.mpr hw.1))
+  rw [stepTok_letter dia a _ line col hk, L.bind_ok hscan]
+  simp only [List.reverse_reverse]
+  cases isData with
+  | true =>
+    simp only [if_true] at hw
+    have hc := hne rfl
+    simp [finishUnquoted, classify_data dia a b c d e code hw, hc, mkTok]
+  | false =>
+    simp only [Bool.false_eq_true, if_false] at hw
+    by_cases hc : code = []
+    · subst hc
+      have := classify_save dia a b c d e [] hw
+      simp only [if_true] at this
+      simp [finishUnquoted, this, mkTok]
+    · simp [finishUnquoted, classify_save dia a b c d e code hw, hc, mkTok]
+
+/-- `loop_` -/
+theorem stepTok_loop (dia : Dialect) (a b c d e : Nat) (ctx : Str)
+    (hw : lowerAscii a = 108 ∧ lowerAscii b = 111 ∧ lowerAscii c = 111 ∧ lowerAscii d = 112 ∧ lowerAscii e = 95)
+    (hctx : ctx = [] ∨ ∃ x r, ctx = x :: r ∧ isWs x = true)
+    (line col : Nat) (pol : Policy) (log : List Report) :
+    stepTok dia true a (b :: c :: d :: e :: ctx) line col pol log
+      = .ok (.tok ⟨.loopKw, [], line, col + 5⟩ ⟨ctx, line, col + 5⟩) log := by
+  obtain ⟨h1, h2, h3, h4, h5⟩ := hw
+  have fa := LF.all dia a; have fb := LF.all dia b; have fc := LF.all dia c; have fd := LF.all dia d
+  have fe := LF.all dia e
+  have ca := fa.l.mpr h1; have cb := fb.o.mpr h2; have cc := fc.o.mpr h3; have cd := fd.p.mpr h4; have ce := fe.u.mpr h5
+  rw [stepTok_letter dia a _ line col (Or.inr (Or.inr ca))]
+  have hscan : scanUnquoted dia (a :: b :: c :: d :: e :: ctx) line col false [] 0 true true pol log
+      = .ok ⟨[e, d, c, b, a], ⟨ctx, line, col + 5⟩⟩ log := by
+    rw [scanUnquoted_general_step dia a _ _ _ _ _ _ _ _ _ (letter_facts dia a 108 (by omega) h1).1 (general_of_letter ca (by simp)),
+      scanUnquoted_general_step dia b _ _ _ _ _ _ _ _ _ (letter_facts dia b 111 (by omega) h2).1 (general_of_letter cb (by simp)),
+      scanUnquoted_general_step dia c _ _ _ _ _ _ _ _ _ (letter_facts dia c 111 (by omega) h3).1 (general_of_letter cc (by simp)),
+      scanUnquoted_general_step dia d _ _ _ _ _ _ _ _ _ (letter_facts dia d 112 (by omega) h4).1 (general_of_letter cd (by simp)),
+      scanUnquoted_general_step dia e _ _ _ _ _ _ _ _ _ (letter_facts dia e 95 (by omega) h5).1 (general_of_letter ce (by simp))]
+    have := scanUnquoted_ok dia ctx hctx line pol log [] none [e, d, c, b, a] (col + 1 + 1 + 1 + 1 + 1) 5
+    simp only [List.nil_append, Option.isSome_none, List.reverse_nil, colAdd_nil, Nat.add_zero] at this
+    rw [this _ _ rfl trivial rfl (fun _ => rfl)]
+  rw [L.bind_ok hscan]
+  simp [finishUnquoted, classify_loop dia a b c d e ⟨h1, h2, h3, h4, h5⟩, mkTok]
 
 end CifModel.Model.Lexer
